@@ -63,11 +63,12 @@ InRange(rk, lo, hi, x) ==
 RECURSIVE Upto(_, _)
 Upto(a, b) == IF a > b THEN <<>> ELSE <<a>> \o Upto(a + 1, b)
 
-\* the elements a range with a lower bound yields, in order (an endless range: its first EndlessTake)
-RangeElems(rk, lo, hi) ==
+\* the elements a range with a lower bound yields, in order; of an endless range: its first n
+RangeElemsN(rk, lo, hi, n) ==
   LET first == IF LoOpen(rk) THEN lo + 1 ELSE lo
-      last  == IF ~HasHi(rk) THEN first + EndlessTake - 1 ELSE IF HiOpen(rk) THEN hi - 1 ELSE hi
+      last  == IF ~HasHi(rk) THEN first + n - 1 ELSE IF HiOpen(rk) THEN hi - 1 ELSE hi
   IN Upto(first, last)
+RangeElems(rk, lo, hi) == RangeElemsN(rk, lo, hi, EndlessTake)
 
 -----------------------------------------------------------------------------
 (* Sources.                                                                *)
@@ -89,8 +90,11 @@ Elems(s) == CASE s.k = "range"     -> RangeElems(s.rk, s.lo, s.hi)
               [] Unordered(s.k)    -> Order[s.k][s.es]
               [] OTHER             -> s.es
 
-\* what remains of a one-shot source after `pos` calls of next
-Rest(s, p) == SubSeq(Elems(s), p + 1, Len(Elems(s)))
+\* what remains of a one-shot source after `pos` calls of next (of an endless range: the next
+\* EndlessTake elements - enough for every operation of the instance that terminates)
+Rest(s, p) == IF Infinite(s)
+              THEN SubSeq(RangeElemsN(s.rk, s.lo, s.hi, p + EndlessTake), p + 1, p + EndlessTake)
+              ELSE SubSeq(Elems(s), p + 1, Len(Elems(s)))
 
 -----------------------------------------------------------------------------
 (* The closures of the instance (fixed, pure).                             *)
